@@ -85,6 +85,11 @@ if len(m) != 1:
     raise SystemExit("gen_constants: stored_at field type not found")
 width = {"u8": 8, "u16": 16, "u32": 32, "u64": 64, "usize": 64}[m[0]]
 consts.append(("PUT_TALLY_BITS", "Nat", str(width), "src/core/put_query.rs"))
+tk = one("src/core/put_query.rs", r"\.take\(([^)]+)\)")
+tkv = {"u8::MAX as usize": 255, "u16::MAX as usize": 65535}.get(tk.strip())
+if tkv is None:
+    tkv = arith(tk)
+consts.append(("PUT_TAKE_CLOSEST", "Nat", str(tkv), "src/core/put_query.rs"))
 
 # ---- wire names: every serde field name / rename / tag / variant name of messages/internal.rs,
 # as byte lists (the model's encoder and decoder use only these)
